@@ -56,7 +56,7 @@ JOBS += [
 ]
 
 # page decoders: harness-is-contract + loop contracts (enforce-contract's assigns instrumentation exhausts memory here)
-RD = dict(prop='C04', harness='harness/C04/pages.c', entry='h_c04_read_dictionary_page', overlays=['contracts/page_reader.ovl'],
+RD = dict(props=['C04', 'C14'], harness='harness/C04/pages.c', entry='h_c04_read_dictionary_page', overlays=['contracts/page_reader.ovl'],
           includes=['src'], loop_contracts=True, min_loop_obligations=1, extra_sources=[], cbmc_flags=MF,
           checks=['--memory-leak-check'], trusted=T_STUBS[:1], functions=['carquet_read_dictionary_page'], wip=False)
 JOBS += [
@@ -70,7 +70,7 @@ JOBS += [
          note='validated: with 821768a reverted the memcpy source-range obligation fails', **RD),
 ]
 
-RDP = dict(prop='C04', harness='harness/C04/pages.c', entry='h_c04_read_data_page_v1', overlays=['contracts/page_reader.ovl'],
+RDP = dict(props=['C04', 'C14'], harness='harness/C04/pages.c', entry='h_c04_read_data_page_v1', overlays=['contracts/page_reader.ovl'],
            includes=['src'], loop_contracts=False, unwind=5, unwindset=['bit_width_for_max.0:17'], object_bits=10, extra_sources=[], cbmc_flags=MF,
            checks=['--memory-leak-check'],
            trusted=T_STUBS[:1] + ['stubs/pages_stubs.c: carquet_rle_decode_levels / carquet_rle_decode_all / carquet_decode_plain / carquet_dispatch_gather_* as contracts'],
